@@ -220,6 +220,7 @@ def register(R: Registry):
     register_handles(R, path_obj)
     register_branch(R, path_obj)
     register_tree(R)
+    register_swc(R, path_obj)
 
 
 
@@ -1023,3 +1024,132 @@ def register_tree(R):
           requires=[("handle-position-in-[-n,n)", any_position)], ghost_exit=crow_def,
           ensures=[(w, children_post(w)) for w in ("handles-on-this-tree", "every-handle-is-a-row-naming-the-wrapped-row's-id-as-parent", "in-row-order-each-once", "every-such-row-is-listed")],
           options=dict(OPTS, strict_index=False))
+
+
+# =====================================================================================================================
+# SWCLike / DictSWC: sizes, stacked coordinates, adjacency matrix, construction, dict views
+def register_swc(R, path_obj):
+    from swcgeom.core.swc import DictSWC
+    from swcgeom.core.swc_utils import get_names, get_types
+
+    def on_tree(S):
+        return dict(self=sym_tree(S, "t"))
+
+    def on_path(S):
+        return dict(self=path_obj(S, sym_tree(S, "t")))
+
+    def path_pre(E, v, o):
+        p = v["self"]
+        if "idx" not in p.fields:
+            return True
+        idx, t = pidx(p), p.fields["attach"]
+        j = qj()
+        return z3.ForAll([j], z3.Implies(z3.And(j >= 0, j < idx.nz()), z3.And(idx.get(j).z >= 0, idx.get(j).z < nof(t))))
+
+    PRE = [("a-path's-window-positions-are-rows-of-its-owner", path_pre)]
+
+    def size_of(x):
+        return pidx(x).nz() if "idx" in x.fields else nof(x)
+
+    def cell(x, key, j):
+        """entry j of column `key` as the view x reports it"""
+        if "idx" in x.fields:
+            return col(x.fields["attach"], key).get(pidx(x).get(j).z).z
+        return col(x, key).get(j).z
+
+    BOTH = {"tree": on_tree, "path": on_path}
+
+    for fn, delta in (("number_of_nodes", 0), ("number_of_edges", -1), ("__len__", 0)):
+        R.add(f"{SWC}:SWCLike.{fn}", prop="C09", variants=BOTH, requires=PRE,
+              ensures=[("rows-of-the-view" + ("-minus-one" if delta else ""), (lambda d: lambda E, v, o: to_z3(v["result"], "int") == size_of(v["self"]) + d)(delta))])
+
+    # ------------------------------------------------------------------ xyz / xyzw / xyzr
+    def stack_post(names):
+        def f(E, v, o):
+            r, x = v["result"], v["self"]
+            if type(r).__name__ != "S2Arr" or r.transposed or r.k != len(names) or r.kind != "real" or r.uid in E.entry_uids:
+                return False
+            n, j = size_of(x), qj()
+            body = [z3.Select(r.cols[c], j) == (z3.RealVal(1) if nm == "1" else cell(x, nm, j)) for c, nm in enumerate(names)]
+            return z3.And(r.nz() == n, z3.ForAll([j], z3.Implies(z3.And(j >= 0, j < n), z3.And(*body))))
+
+        return f
+
+    for fn, names in (("xyz", ("x", "y", "z")), ("xyzw", ("x", "y", "z", "1")), ("xyzr", ("x", "y", "z", "r"))):
+        R.add(f"{SWC}:SWCLike.{fn}", prop="C09", variants=BOTH, requires=PRE,
+              ensures=[(f"fresh-(n,{len(names)})-array-row-j-is-({','.join(names)})-of-node-j", stack_post(names))])
+
+    # ------------------------------------------------------------------ get_adjacency_matrix
+    def pair_outside(E, v, o):
+        x = v["self"]
+        n, k = size_of(x), qj("k")
+        par, chi = cell(x, "pid", k + 1), cell(x, "id", k + 1)
+        if "idx" in x.fields:  # a path renumbers: node j has id j and parent j-1
+            par, chi = k, k + 1
+        return z3.Exists([k], z3.And(k >= 0, k < n - 1, z3.Not(z3.And(par >= 0, par < n, chi >= 0, chi < n))))
+
+    def adjacency_post(E, v, o):
+        import numpy as np
+
+        r, x = v["result"], v["self"]
+        if not isinstance(r, X.CooRecord) or r.dtype is not np.int32:
+            return False
+        n, k = size_of(x), qj("k")
+        m = z3.If(n >= 1, n - 1, z3.IntVal(0))
+        par, chi = cell(x, "pid", k + 1), cell(x, "id", k + 1)
+        if "idx" in x.fields:
+            par, chi = k, k + 1
+        return z3.And(to_z3(r.shape[0], "int") == n, to_z3(r.shape[1], "int") == n, r.data.nz() == m, r.row.nz() == m, r.col.nz() == m,
+                      z3.ForAll([k], z3.Implies(z3.And(k >= 0, k < m), z3.And(r.data.get(k).z == 1, r.row.get(k).z == par, r.col.get(k).z == chi))))
+
+    R.add(f"{SWC}:SWCLike.get_adjacency_matrix", prop="C09", variants=BOTH, requires=PRE,
+          raises={"ValueError": ("only-when-a-(parent,child)-pair-names-no-row", pair_outside)},
+          ensures=[("n-by-n-int32-matrix-whose-triplets-are-exactly-(parent-id,own-id,1)-of-rows-1..n-1-in-order", adjacency_post),
+                   ("every-pair-names-rows", lambda E, v, o: z3.Not(pair_outside(E, v, o)))],
+          notes="scipy.sparse.coo_matrix is a recording model: entry (p, c) of the matrix is the sum of data over the triplets (p, c)")
+
+    # ------------------------------------------------------------------ DictSWC.__init__ / keys / values / items
+    def init_setup(comments, names):
+        def f(S):
+            t = sym_tree(S, "t", extra_cols=("level",))
+            kw = PDict(dict(t.fields["ndata"].items))
+            cm = None if comments is None else PList(["# a", "# b"])
+            if cm is not None:
+                cm.frozen = True
+            return dict(self=S.obj(DictSWC), source="cell.swc", comments=cm, names=(get_names() if names else None), kwargs=kw)
+
+        return f
+
+    def init_post(E, v, o):
+        d, kw = v["self"], o["kwargs"]
+        nd = d.fields.get("ndata")
+        if not isinstance(nd, PDict) or nd.items is None or list(nd.items) != list(kw.items):
+            return False
+        cm, c0 = d.fields.get("comments"), o["comments"]
+        if not isinstance(cm, PList) or cm.items != ([] if c0 is None else c0.items):
+            return False
+        if not (d.fields.get("source") == "cell.swc" and d.fields.get("names") == get_names() and d.fields.get("types") == get_types()):
+            return False
+        # every column holds what was given under that name (the library keeps the very arrays; only their content is demanded here)
+        return z3.And(*[z3.And(nd.items[k].nz() == kw.items[k].nz(), nd.items[k].arr == kw.items[k].arr) for k in nd.items])
+
+    R.add(f"{SWC}:DictSWC.__init__", prop="C09",
+          variants={f"comments-{'given' if c else 'omitted'}-names-{'given' if nm else 'omitted'}": init_setup(c, nm) for c in (None, True) for nm in (False, True)},
+          ensures=[("one-column-per-keyword-with-the-given-content-comments-kept-names-and-types-defaulted", init_post)])
+
+    def view_post(what):
+        def f(E, v, o):
+            r, nd = v["result"], v["self"].fields["ndata"].items
+            if not isinstance(r, PList) or r.items is None or len(r.items) != len(nd):
+                return False
+            if what == "keys":
+                return r.items == list(nd)
+            if what == "values":
+                return all(a is b for a, b in zip(r.items, nd.values()))
+            return all(isinstance(a, tuple) and a[0] == k and a[1] is b for a, (k, b) in zip(r.items, nd.items()))
+
+        return f
+
+    for fn in ("keys", "values", "items"):
+        R.add(f"{SWC}:DictSWC.{fn}", prop="C09", setup=lambda S: dict(self=sym_tree(S, "t", extra_cols=("level",))),
+              ensures=[(f"the-{fn}-of-the-column-table-in-order-columns-by-identity", view_post(fn))])
